@@ -2,13 +2,21 @@
 # Model.Ser — PHP `serialize` / `unserialize` as coded (C14, part 3)
 
 Mirrors `std/php/serialize.go` (`phpSerializeValue`) and `std/php/unserialize.go`
-(`Call`, `parsePhpValue`, `parsePhpArray`) after fix C14-unserialize (strings by
-declared length, signed integer parsed with its sign, bounded pre-allocation).
+(`Call`, `parsePhpValue`, `parsePhpFloat`, `parsePhpArray`) after the fixes
+C14-unserialize (strings by declared length, signed integer parsed with its
+sign, bounded pre-allocation), C14-1-serialize-float (`d:`), C14-3-serialize-
+keyed-array (slot names are written as keys), C14-6-unserialize-scalar-keys
+(a key is an int or a string) and C14-7-unserialize-lax-string (a mis-sized
+top-level string is `false`).
 
-Values: `null`, booleans, 64-bit integers, byte strings, `float` (opaque: the
-serializer refuses it), `arr` = `data.ArrayValue` (a list; `serialize` writes
-the positions `i:0; i:1; …` as keys) and `obj` = `data.ObjectValue` (origami's
-keyed array: ordered string keys; `serialize` writes every key as a string).
+Values: `null`, booleans, 64-bit integers, byte strings, `float r` — a float
+carried as its *text* `r` (the lexeme between `d:` and `;`; which float64 a
+lexeme denotes, and which lexeme the writer picks for a float64, is
+`strconv.ParseFloat` / `strconv.FormatFloat`, trusted and tied by the harness),
+`arr` = `data.ArrayValue` (slots; a slot's `key` is its `ZVal.Name`: `[]` for a
+positional slot, whose key is its position, otherwise a string key or a sparse
+integer key such as `"6"`) and `obj` = `data.ObjectValue` (origami's keyed
+array: ordered string keys; `serialize` writes every key as a string).
 Class instances (`O:`) are outside the model.
 
 `unserialize` trims its input with `strings.TrimSpace` first; the model starts
@@ -26,10 +34,10 @@ inductive PV where
   | bool (b : Bool)
   | int (i : Int)
   | str (s : Bytes)
-  | float
+  | float (r : Bytes)
   | arr (items : PL)
   | obj (props : PL)
-/-- entries; `key` is meaningful for `obj` only (`[]` in an `arr`) -/
+/-- entries; in an `arr` the `key` is the slot's name (`[]` = positional slot) -/
 inductive PL where
   | nil
   | cons (key : Bytes) (v : PV) (rest : PL)
@@ -60,6 +68,27 @@ def spanDigits : Bytes → Bytes × Bytes
 
 def digitsVal (ds : Bytes) : Nat := ds.foldl (fun a c => 10 * a + (c - 48)) 0
 
+def maxInt : Nat := 9223372036854775807
+
+/-- `strconv.ParseInt(sign ++ digits, 10, 64)` on a non-empty digit string -/
+def intVal (neg : Bool) (ds : Bytes) : Option Int :=
+  if ds = [] then none
+  else if neg then
+    (if digitsVal ds ≤ maxInt + 1 then some (- (digitsVal ds : Int)) else none)
+  else
+    (if digitsVal ds ≤ maxInt then some (digitsVal ds : Int) else none)
+
+/-- `data.ParseIntArrayKeyName`: `strconv.Atoi(name)` succeeds and `strconv.Itoa(n) == name`
+(so `"6"`, `"-3"` are integer keys; `""`, `"06"`, `"+6"`, `"-0"`, `"9223372036854775808"` are not) -/
+def keyNeg (k : Bytes) : Bool := k.head? == some 45
+
+def keyDigits (k : Bytes) : Bytes := if keyNeg k then k.tail else k
+
+def intKeyOf (k : Bytes) : Option Int :=
+  match intVal (keyNeg k) (keyDigits k) with
+  | some n => if (keyDigits k).all isDigit = true ∧ itoa n = k then some n else none
+  | none => none
+
 /-! ## serialize -/
 
 /-- `makeSerializedString` -/
@@ -75,19 +104,29 @@ def wrapArr (n : Nat) : Option Bytes → Option Bytes
   | some body => some ([97, 58] ++ dec n ++ [58, 123] ++ body ++ [125])
   | none => none
 
+/-- the key `phpSerializeValue` writes for slot `idx` of an `ArrayValue` (`SlotKey`, then
+`ParseIntArrayKeyName`): the position for a positional slot, `i:n;` for an integer-like name,
+`s:len:"name";` otherwise -/
+def slotKey (idx : Nat) (k : Bytes) : Bytes :=
+  if k = [] then [105, 58] ++ dec idx ++ [59]
+  else
+    match intKeyOf k with
+    | some n => [105, 58] ++ itoa n ++ [59]
+    | none => serStr k
+
 mutual
-/-- `phpSerializeValue`; `none` is the script-level `false` -/
+/-- `phpSerializeValue`; `none` is the script-level `false` (value kinds outside the model) -/
 def ser : PV → Option Bytes
   | .null => some [78, 59]
   | .bool b => some [98, 58, if b then 49 else 48, 59]
   | .int i => some ([105, 58] ++ itoa i ++ [59])
   | .str s => some (serStr s)
-  | .float => none
+  | .float r => some ([100, 58] ++ r ++ [59])
   | .arr items => wrapArr items.len (serItems 0 items)
   | .obj props => wrapArr props.len (serProps props)
 def serItems : Nat → PL → Option Bytes
   | _, .nil => some []
-  | idx, .cons _ v rest => cat3 (some ([105, 58] ++ dec idx ++ [59])) (ser v) (serItems (idx + 1) rest)
+  | idx, .cons k v rest => cat3 (some (slotKey idx k)) (ser v) (serItems (idx + 1) rest)
 def serProps : PL → Option Bytes
   | .nil => some []
   | .cons k v rest => cat3 (some (serStr k)) (ser v) (serProps rest)
@@ -103,8 +142,6 @@ def pBool : Bytes → Option (PV × Bytes)
   | 58 :: c :: 59 :: rest =>
       if c = 48 then some (.bool false, rest) else if c = 49 then some (.bool true, rest) else none
   | _ => none
-
-def maxInt : Nat := 9223372036854775807
 
 /-- `strconv.ParseInt(sign ++ digits, 10, 64)` -/
 def intOf (neg : Bool) (ds : Bytes) : Option PV :=
@@ -143,6 +180,55 @@ def pStr : Bytes → Option (PV × Bytes)
       | _ => none
   | _ => none
 
+/-! ### floats: `d:<text>;` -/
+
+def dropSign : Bytes → Bytes
+  | 43 :: r => r
+  | 45 :: r => r
+  | t => t
+
+/-- the exponent part after `e` / `E`: sign? digits+ and nothing else -/
+def expOk (r : Bytes) : Bool :=
+  (spanDigits (dropSign r)).1 ≠ [] && (spanDigits (dropSign r)).2 = []
+
+/-- fraction digits and what follows them (`.` digits*), or no fraction -/
+def fracPart : Bytes → Bytes × Bytes
+  | 46 :: r => spanDigits r
+  | r => ([], r)
+
+/-- `[+-]? (digits | digits . digits* | . digits+) ([eE] [+-]? digits+)?` — the syntax check of
+`parsePhpFloat` before it hands the text to `strconv.ParseFloat` -/
+def floatNum (t : Bytes) : Bool :=
+  let a := spanDigits (dropSign t)
+  let b := fracPart a.2
+  if a.1.length + b.1.length = 0 then false
+  else
+    match b.2 with
+    | [] => true
+    | c :: r => if c = 101 ∨ c = 69 then expOk r else false
+
+/-- `parsePhpFloat` accepts: `NAN`, `INF`, `-INF` or a decimal number -/
+def floatLex (t : Bytes) : Bool :=
+  t = [78, 65, 78] || t = [73, 78, 70] || t = [45, 73, 78, 70] || floatNum t
+
+/-- `strings.IndexByte(s, ';')`: the text before the first `;` and the rest after it -/
+def splitSemi : Bytes → Option (Bytes × Bytes)
+  | [] => none
+  | c :: rest =>
+      if c = 59 then some ([], rest)
+      else
+        match splitSemi rest with
+        | some (a, b) => some (c :: a, b)
+        | none => none
+
+/-- after `d`: `:` <text> `;` with `text` a float lexeme -/
+def pFloat : Bytes → Option (PV × Bytes)
+  | 58 :: rest =>
+      match splitSemi rest with
+      | some (t, rest') => if floatLex t then some (.float t, rest') else none
+      | none => none
+  | _ => none
+
 /-- after `a`: `:` digits+ `:{` → entry count and the rest -/
 def pArrHead : Bytes → Option (Nat × Bytes)
   | 58 :: rest =>
@@ -153,39 +239,21 @@ def pArrHead : Bytes → Option (Nat × Bytes)
       | _ => none
   | _ => none
 
-def joinSep (sep : Bytes) : List Bytes → Bytes
-  | [] => []
-  | [x] => x
-  | x :: y :: rest => x ++ sep ++ joinSep sep (y :: rest)
-
-mutual
-/-- `Value.AsString()` (used for array keys that are neither string nor int) -/
-def asString : PV → Bytes
-  | .null => []
-  | .bool b => if b then [116, 114, 117, 101] else [102, 97, 108, 115, 101]
-  | .int i => itoa i
-  | .str s => s
-  | .float => []
-  | .arr items => [91] ++ arrBody items ++ [93]
-  | .obj props =>
-      let r := objBody props
-      [79, 98, 106, 101, 99, 116, 32, 123, 10] ++ (if r.length > 2 then r.dropLast else r) ++ [10, 125]
-/-- elements joined by ", " -/
-def arrBody : PL → Bytes
-  | .nil => []
-  | .cons _ v .nil => asString v
-  | .cons _ v rest => asString v ++ [44, 32] ++ arrBody rest
-/-- "\t<key>: <value>\n" per property -/
-def objBody : PL → Bytes
-  | .nil => []
-  | .cons k v rest => [9] ++ k ++ [58, 32] ++ asString v ++ [10] ++ objBody rest
-end
-
 /-- the key string `parsePhpArray` uses for a non-sequential array -/
 def keyString : PV → Bytes
   | .str s => s
   | .int i => itoa i
-  | v => asString v
+  | _ => []
+
+/-- `parsePhpArray` accepts an int or a string as a key, nothing else -/
+def keyOk : PV → Bool
+  | .int _ => true
+  | .str _ => true
+  | _ => false
+
+def keyFilter : Option (PV × Bytes) → Option (PV × Bytes)
+  | some (k, s) => if keyOk k then some (k, s) else none
+  | none => none
 
 /-- `OrderedMap.Set`: replace in place or append -/
 def setProp (k : Bytes) (v : PV) : PL → PL
@@ -220,6 +288,7 @@ def pValue : Nat → Bytes → Option (PV × Bytes)
       else if c = 98 then pBool rest
       else if c = 105 then pInt rest
       else if c = 115 then pStr rest
+      else if c = 100 then pFloat rest
       else if c = 97 then
         match pArrHead rest with
         | none => none
@@ -233,7 +302,7 @@ def pEntries : Nat → Nat → Bytes → Option (List (PV × PV) × Bytes)
   | _, 0, s => some ([], s)
   | 0, _ + 1, _ => none
   | fuel + 1, n + 1, s =>
-      match pValue fuel s with
+      match keyFilter (pValue fuel s) with
       | none => none
       | some (k, s1) =>
           match pValue fuel s1 with
@@ -260,7 +329,7 @@ def parseAll (s : Bytes) : Option PV :=
 
 def knownPrefix (s : Bytes) : Bool :=
   startsWith [78, 59] s || startsWith [98, 58] s || startsWith [105, 58] s ||
-  startsWith [115, 58] s || startsWith [97, 58] s
+  startsWith [100, 58] s || startsWith [115, 58] s || startsWith [97, 58] s
 
 /-- index of the last `"` -/
 def lastQuote (s : Bytes) : Option Nat :=
@@ -268,8 +337,10 @@ def lastQuote (s : Bytes) : Option Nat :=
   | some i => some (s.length - 1 - i)
   | none => none
 
-/-- the legacy branch of `Call` for input starting with `s:`: whatever lies between the
-first and the last double quote of the *whole* input -/
+/-- the legacy branch of `Call` for input starting with `s:` that the reader rejected: the text
+between the first and the last double quote of the *whole* input is looked at for the wrappers
+of an older format; anything else is `false` (after fix C14-7; it used to be returned as a
+string) -/
 def legacyStr (s : Bytes) : Out :=
   match s.idxOf? 34, lastQuote s with
   | some f, some l =>
@@ -278,7 +349,7 @@ def legacyStr (s : Bytes) : Out :=
         let content := (s.take l).drop (f + 1)
         if startsWith [95, 95, 111, 114, 105, 103, 97, 109, 105, 95, 97, 58] content
           || startsWith [95, 95, 111, 114, 105, 103, 97, 109, 105, 95, 111, 58] content then .legacy
-        else .value (.str content)
+        else .false
   | _, _ => .false
 
 /-- `unserialize` on the `TrimSpace`d input -/
